@@ -57,11 +57,15 @@ func (st *State) specEnv(f *Frame, results []Value, entry bool) *specEnv {
 	} else {
 		// free variables by name (closures): current cell contents
 		env.frame = nil
+		// (old(x) of a captured variable is its content at entry)
+		ov := map[string]Value{}
+		for k, v := range env.vars {
+			ov[k] = v
+		}
+		env.oldVars = ov
 		for fv, l := range f.fvCells {
 			if l.Loc != nil {
-				if _, ok := env.vars[fv.Name()]; !ok {
-					env.vars[fv.Name()] = st.readLoc(l.Loc)
-				}
+				env.vars[fv.Name()] = st.readLoc(l.Loc)
 			}
 		}
 	}
@@ -190,11 +194,30 @@ func (st *State) evalSpec(e *SExpr, env *specEnv) Value {
 		name := "q_" + e.Name
 		saved, had := env.vars[e.Name]
 		env.vars[e.Name] = Value{T: T, S: s, Term: name}
+		// (a bound variable means the same inside old(...))
+		var savedO Value
+		hadO, sameMap := false, false
+		if env.oldVars != nil {
+			env.oldVars["\x00probe"] = Value{}
+			_, sameMap = env.vars["\x00probe"]
+			delete(env.oldVars, "\x00probe")
+			if !sameMap {
+				savedO, hadO = env.oldVars[e.Name]
+				env.oldVars[e.Name] = Value{T: T, S: s, Term: name}
+			}
+		}
 		body := st.evalSpec(e.Args[0], env)
 		if had {
 			env.vars[e.Name] = saved
 		} else {
 			delete(env.vars, e.Name)
+		}
+		if env.oldVars != nil && !sameMap {
+			if hadO {
+				env.oldVars[e.Name] = savedO
+			} else {
+				delete(env.oldVars, e.Name)
+			}
 		}
 		if body.S != SBool {
 			env.fail("quantifier body not boolean")
